@@ -5,6 +5,11 @@ HERE = os.path.dirname(os.path.dirname(os.path.abspath(__file__)))
 
 # id -> (technique, level text, level note, design ref)
 CHECKS = {
+ "C19": (
+  "hypothesis-generated single-sample BAM sets + differential against an independent CIGAR-walking base count (all-inclusive run exposing every depth) and the documented threshold rule with thresholds drawn on realised frequencies/depths",
+  "Exploration: generated BAM sets (flags, MAPQ on/around the threshold, deletions/skips/clips, N bases) x read-filter configurations x threshold options: the AD of all four nucleotides at every covered target position equals the count over reads passing exactly the configured filters; with drawn --ind-maf/--ind-mad/--min-ind/--maf/--mad an allele is listed iff it meets the thresholds, a position is emitted iff >=2 alleles qualify, REF is the reference base and REFMASKED iff it fails, ALT is ordered by decreasing mean sample frequency, INFO/FORMAT AD and ADMF are recomputed.",
+  "Unpaired reads, base quality 30, no secondary alignments, depth < 1000 (pysam pileup defaults not mentioned by the tool are kept out of play); positions with an undefined sample frequency under --maf are skipped and counted.",
+  "DESIGN.md §4 C19"),
  "C20": (
   "hypothesis-generated haplotype VCF text + generated assemble/call/call-exact pipelines; differential against an independent per-site projection, strict parser and pysam",
   "Exploration: generated haplotype VCFs (ALT-less records, SNVs monomorphic among the listed haplotypes, empty SNVPOS, '.' alleles, mixed ploidy, with/without ACP/AFP/SNVDP, filtered records with missing values) and real pipeline outputs: atomize must exit cleanly and emit at most one line per SNVPOS with REF/ALT by first appearance (ALT '.' or omission for monomorphic sites), phased GT = projection of the haplotype GT, PS = record POS, AC/ACP/DS = haplotype-level counts marginalised to the site and normalised to ploidy, DP from SNVDP; output passes the strict parser (no literal None/nan) and pysam.",
